@@ -243,6 +243,13 @@ func (c *Ctx) callInner(in ssa.Instruction, cc *ssa.CallCommon, st *State, defer
 			return c.inlineClosure(ci, args, st, rt)
 		}
 	}
+	if con == nil && id.dynamic && !deferred && len(cc.Args) == 1 {
+		// range-over-func: seq(body) where body is the synthetic yield closure
+		if ci, ok := c.closures[cc.Args[0]]; ok && isRangeFuncBody(ci.fn) && c.canInline(ci.fn) {
+			c.rangeFuncCall(ci, st)
+			return nil
+		}
+	}
 	if con == nil {
 		return c.havocCall(id, args, rt, st, deferred)
 	}
@@ -258,7 +265,11 @@ func (c *Ctx) callInner(in ssa.Instruction, cc *ssa.CallCommon, st *State, defer
 		preAll = append(preAll, cond)
 		o := c.addObl("G", fmt.Sprintf("%s.%s.pre[%s]", c.fnName(), site, label), cond, r.Src)
 		// a callee precondition belongs to the properties of the callee's contract as well
-		o.Props = append(append([]string{}, c.props...), con.Props...)
+		if len(r.Props) > 0 {
+			o.Props = append(append([]string{}, c.props...), r.Props...)
+		} else {
+			o.Props = append(append([]string{}, c.props...), con.Props...)
+		}
 	}
 	pre := st.clone()
 	// effects
@@ -779,7 +790,9 @@ func (c *Ctx) runInline(fr *inlineFrame, st *State, rt types.Type) *Val {
 				c.execInstr(in, bst)
 			}
 		}
-		_ = ended
+		if !ended && c.curReach != "false" {
+			reach[b] = c.curReach
+		}
 		exit[b] = bst
 	}
 	// merge returns
